@@ -13,7 +13,7 @@ func init() {
 		ID:          "C08",
 		Explanation: "(R8.1) no certificate line is added to the clause set unless the reverse-unit-propagation test on that very line succeeded; (R8.2) every function that checks a certificate re-initialises the tags and defers the restoration of the clause set before doing anything else; (R8.3) the RUP test saves the unit bindings before its first write and stores them back on every path to return; (R8.4) every clause used for a propagation or a conflict is tagged (the unsatisfiable subset is read from the tags); (R8.5) the reader-based and the channel-based entry points perform the same per-line steps.",
 		NotDecided:  "that the naive propagation loop computes exactly unit propagation to fixpoint, and the behaviour of the checker on every certificate.",
-		Rules:       []ruleFn{ruleR8_1, ruleR8_2, ruleR8_3, ruleR8_4, ruleR8_5, ruleR8_6, ruleR8_7, ruleR8_8, ruleR8_9, ruleR8_10, ruleR7_3, ruleR13_10},
+		Rules:       []ruleFn{ruleR8_1, ruleR8_2, ruleR8_3, ruleR8_4, ruleR8_5, ruleR8_6, ruleR8_7, ruleR8_8, ruleR8_9, ruleR8_10, ruleR7_3, ruleR13_10, ruleR8_11, ruleR13_13, ruleR13_14},
 	})
 }
 
